@@ -58,7 +58,7 @@ def run(tier, replay=None):
         ck.coq_assumptions()
     inv = _inventory(ck) or {"sites": [], "file_sites": [], "ambient_sites": []}
     ok_shapes = {"writes_map", "collect_then_sort", "keyed_lookup", "exists_test", "commutative_acc", "per_element_write",
-                 "commuting_writes", "singleton", "no_effect", "inspected_harmless", "known_sensitive"}
+                 "commuting_writes", "singleton", "no_effect", "inspected_harmless"}
     bad_sites = [s for s in inv["sites"] if s["shape"] not in ok_shapes]
     bad_files = [f for f in inv["file_sites"] if (f["reachable_from_example"] and not f["skip_exist"]) or (f["reachable_from_gen"] and f["skip_exist"])]
     bad_ambient = [a for a in inv.get("ambient_sites", []) if not a["allowed"]]
@@ -111,7 +111,7 @@ def run(tier, replay=None):
             what = "the GenFS development no longer checks: " + ck.coq_error
             if bad_sites:
                 what = ("map-range inventory: %d site(s) of the generator packages are not order-insensitive by the rules nor allow-listed (%s); "
-                        "GenFS.all_sites_order_insensitive_partial no longer checks; generation was repeated %s times over metadata-heavy designs and the real tool was re-run, all outputs agreed"
+                        "GenFS.all_sites_order_insensitive no longer checks; generation was repeated %s times over metadata-heavy designs and the real tool was re-run, all outputs agreed"
                         % (len(bad_sites), "; ".join("%s [%s]" % (s["site"], s["shape"]) for s in bad_sites[:6]), (searched or {}).get("evaluations")))
             elif bad_files:
                 what = "file inventory: codegen.File literal(s) with the wrong SkipExist flag: " + "; ".join(f["site"] for f in bad_files[:6])
